@@ -494,6 +494,25 @@ pub fn run_hs(cfg: &HsCfg, sc: &mut Sc) -> HsTrace {
                         if o.err() != Some("State(MissingPsk)") {
                             sc.viol("C12", format!("{name}: write without psk at message {k} gave {o:?}"));
                         }
+                        // rejected attempts to set it (wrong length, position out of range) must leave the slot
+                        // empty: the message still reports the missing psk, no default key is used
+                        for (mk, n) in &missing {
+                            if *mk == k {
+                                let bad_len = [0usize, 1, 31, 33, 64][r.below(5)];
+                                let o = sc.ex.set_psk(w, *n as usize, &keys.psk[*n as usize].iter().cycle().take(bad_len).copied().collect::<Vec<u8>>());
+                                sc.check_panic(&o, "set_psk with a wrong length");
+                                if o.is_ok() {
+                                    sc.viol("C12", format!("{name}: set_psk with a {bad_len}-byte key accepted"));
+                                }
+                                let o = sc.ex.set_psk(w, 10 + r.below(250), &keys.psk[*n as usize]);
+                                sc.check_panic(&o, "set_psk out of range");
+                                let o = sc.ex.hs_write(w, &payload, exact + 16);
+                                sc.check_panic(&o, "hs_write missing psk (after a rejected set_psk)");
+                                if o.err() != Some("State(MissingPsk)") {
+                                    sc.viol("C12", format!("{name}: after a rejected set_psk({n}, {bad_len} bytes) the write at message {k} gave {o:?}, not MissingPsk"));
+                                }
+                            }
+                        }
                         for (mk, n) in &missing {
                             if *mk == k {
                                 let o = sc.ex.set_psk(w, *n as usize, &keys.psk[*n as usize]);
@@ -611,6 +630,21 @@ pub fn run_hs(cfg: &HsCfg, sc: &mut Sc) -> HsTrace {
                         }
                         for (mk, n) in &missing {
                             if *mk == k {
+                                let bad_len = [0usize, 1, 31, 33, 64][r.below(5)];
+                                let o = sc.ex.set_psk(rd, *n as usize, &keys.psk[*n as usize].iter().cycle().take(bad_len).copied().collect::<Vec<u8>>());
+                                sc.check_panic(&o, "set_psk with a wrong length");
+                                if o.is_ok() {
+                                    sc.viol("C12", format!("{name}: set_psk with a {bad_len}-byte key accepted"));
+                                }
+                                let o = sc.ex.hs_read(rd, &msg, 70000);
+                                sc.check_panic(&o, "hs_read missing psk (after a rejected set_psk)");
+                                if o.err() != Some("State(MissingPsk)") {
+                                    sc.viol("C12", format!("{name}: after a rejected set_psk({n}, {bad_len} bytes) the read of message {k} gave {o:?}, not MissingPsk"));
+                                }
+                            }
+                        }
+                        for (mk, n) in &missing {
+                            if *mk == k {
                                 let o = sc.ex.set_psk(rd, *n as usize, &keys.psk[*n as usize]);
                                 sc.check_panic(&o, "set_psk");
                             }
@@ -635,6 +669,9 @@ pub fn run_hs(cfg: &HsCfg, sc: &mut Sc) -> HsTrace {
             Some(_) => sc.viol("C02", format!("{name}: payload of message {k} altered in delivery")),
             None => {
                 sc.viol("C02", format!("{name}: honest read of message {k} failed: {o:?}"));
+                if plen >= 16 && sc.ex.last_buf.windows(plen).any(|w| w == payload.as_slice()) {
+                    sc.viol("C19", format!("{name}: read of message {k} returned {o:?} but left the decrypted payload in the caller's buffer"));
+                }
                 if !faults.is_empty() {
                     sc.viol("C07", format!("{name}: genuine message {k} rejected after an earlier failed call: {o:?}"));
                 }
